@@ -357,6 +357,14 @@ static void del_by(var self, int method) {
     case ALLOC_RAW: break;
   }
   
+#if CELLO_ALLOC_CHECK == 1
+  if (self isnt NULL and header(self)->alloc isnt (var)AllocHeap) {
+    throw(ResourceError,
+      "Attempt to delete %$ which was not allocated on the heap!", self);
+    return;
+  }
+#endif
+  
   dealloc(destruct(self));
   
 }
